@@ -130,7 +130,7 @@ impl Check for Canonical {
     fn run(&self, bytes: &[u8]) -> CaseResult {
         let case = decode(bytes);
         let mut r = CaseResult::new(fnv(case.text_a.as_bytes()) ^ fnv(format!("{:?}{:?}", case.o1, case.o2).as_bytes()));
-        r.evals = 4;
+        r.evals = 5;
         let detail = |extra: Value| json!({ "text_a": case.text_a, "text_b": case.text_b, "o1": format!("{:?}", case.o1), "o2": format!("{:?}", case.o2), "extra": extra });
         let run = |text: &str, o: Opts| fmt::format(text, o);
         let fa = match run(&case.text_a, case.o1) {
@@ -156,10 +156,38 @@ impl Check for Canonical {
             }
             Err((sig, what)) => r.fail(sig, what, detail(json!({ "once": out_a }))),
         }
+        // null precisely when nothing would change: a document that only differs from its
+        // canonical form by whitespace at its very end must still get an edit
+        let mut s2 = Src::new(bytes);
+        let perturbed = match s2.below(4) {
+            0 => format!("{}\n", out_a),
+            1 => format!("{}  ", out_a),
+            2 => out_a.trim_end_matches('\n').to_string(),
+            _ => format!("\n{}", out_a),
+        };
+        if perturbed != out_a {
+            match run(&perturbed, case.o1) {
+                Ok(Formatted::Unchanged) => r.fail(
+                    "null-although-not-canonical",
+                    "no edit is returned for a document that differs from its formatted form (only whitespace at its beginning or end)",
+                    detail(json!({ "document": perturbed, "canonical": out_a })),
+                ),
+                Ok(f2 @ Formatted::Edit(..)) => {
+                    let again = fmt::apply(&perturbed, &f2);
+                    if again != out_a {
+                        r.fail("layout-dependent", "a formatted document with extra whitespace at its beginning or end formats to a different text", detail(json!({ "document": perturbed, "formatted": again, "canonical": out_a })));
+                    }
+                }
+                Err((sig, what)) => r.fail(sig, what, detail(json!({ "document": perturbed }))),
+            }
+        }
         // two layouts of the same tokens and comments format to the same text
         match run(&case.text_b, case.o1) {
             Ok(fb) => {
                 let out_b = fmt::apply(&case.text_b, &fb);
+                if matches!(fa, Formatted::Unchanged) && case.text_a != out_b {
+                    r.fail("null-although-not-canonical", "no edit is returned although another layout of the same tokens formats to a different text", detail(json!({ "a": case.text_a, "canonical": out_b })));
+                }
                 if out_b != out_a {
                     r.fail("layout-dependent", "two programs that differ only in whitespace format to different texts", detail(json!({ "a": out_a, "b": out_b })));
                 }
